@@ -101,7 +101,7 @@ def lua_driver(lib):
         call = f["calls"][op["k"]]
         if op["kind"] == "bad":
             if op["bad"] == "too-many":
-                out += ["    lua_pushinteger(L, 1);"] * 6
+                out += ["    lua_pushinteger(L, 1);"] * 8      # more than any generated signature takes
             else:
                 # a table-like value (userdata) matches no scalar signature
                 out += ["    lua_newuserdata(L, 4);"]
